@@ -27,6 +27,7 @@ def run(ctx: Ctx):
     cascade_datetime(ctx)
     identity_other(ctx)
     slots(ctx)
+    slot_independence(ctx)
     late_translations(ctx)
     element_id(ctx)
     unknown_refs(ctx)
@@ -304,6 +305,46 @@ def slots(ctx: Ctx):
         ctx.ob("slots.drop-unknown", where, u(dc)[:200], "{nkey: ... if nkey is not None}", True if ok_drop else (False if not conds else None), "element transforms whose key matches nothing are dropped, never raised")
     uses_translate = passes_cascade("_replaced_element_transforms")
     ctx.ob("slots", where + " [default keys]", uses_translate, True, True if uses_translate else None, "keys are translated by the same cascade")
+
+
+def slot_independence(ctx: Ctx, rule: str = "slots.independent"):
+    """The explicit order ids, the fixed top list and the fixed bottom list are three independent slots of one order dict (a
+    sort-by-value order may carry a stale / empty `element_ids`): whether one is rewritten through the cascade may depend
+    only on ITS OWN presence.  Guards of every slot store (dominance incl. early returns) are inspected for the key of a
+    different slot."""
+    from ..effects import inventory
+    from ..stmts import enclosing_guards, resolver
+
+    ci = ctx.repo.cls(DIM, "_ElementIdShim")
+    own = {"store 'element_ids'": ("element_ids",), "store 'top'": ("top", "fixed"), "store 'bottom'": ("bottom", "fixed")}
+    others = {"store 'element_ids'": ("'fixed'", "'top'", "'bottom'"), "store 'top'": ("'element_ids'", "'bottom'"), "store 'bottom'": ("'element_ids'", "'top'")}
+    n = 0
+    for w in inventory(ctx.repo):
+        if w.member.cls is not ci or w.sig not in own or w.kind != "store":
+            continue
+        fn = w.member.node
+        stmt = next((x for x in ast.walk(fn) if isinstance(x, ast.Assign) and getattr(x, "lineno", -1) == w.lineno), None)
+        if stmt is None:
+            continue
+        n += 1
+        res = resolver(fn, multi=True)
+        foreign = []
+        for test, pol in enclosing_guards(fn, stmt):
+            for v in res(test):
+                t = u(v)
+                for key in others[w.sig]:
+                    # `for anchor in ("top", "bottom")`: the loop variable stands for the slot's own key
+                    if key in t and not any(f"'{o}'" == key for o in own[w.sig]):
+                        foreign.append(f"{'' if pol else 'not '}({u(test)[:70]}) mentions {key}")
+        where = f"{DIM}::_ElementIdShim.{w.member.name} [{w.sig}]"
+        if foreign:
+            ctx.violated(rule, where, sorted(set(foreign))[:3], "guarded by the slot's own presence only",
+                         "an order dict carrying both an `element_ids` list and fixed lists gets only one of them translated: items pinned by id / sub-variable id are silently not pinned")
+        else:
+            ctx.held(rule, where, "guards mention no other slot", "")
+    ctx.count("order slot stores", n)
+    if n < 3:
+        ctx.undecided(rule, f"{DIM}::_ElementIdShim", f"{n} of 3 slot stores located", "stores of element_ids / top / bottom")
 
 
 def late_translations(ctx: Ctx):
